@@ -37,6 +37,10 @@ def make_leaf(r, dtype, ch, style):
             a = r.randint(1, 32000, size=shape).astype(dtype)
         else:
             a = r.randint(1, 250, size=shape).astype(dtype)
+        if ch in (3, 4) and np.dtype(dtype).itemsize == 1:
+            # some pure-black pixels (opaque where there is an alpha plane): a defined colour like any other
+            blk = r.rand(256, 256) < 0.05
+            a[blk, :3] = 0
         if ch == 4:
             if style == "holes":
                 a[..., 3][r.rand(256, 256) < 0.3] = 0
@@ -89,6 +93,12 @@ def _cascade_target(base, fmt, depth, parallel, via_cli=None):
     from toasty.merge import cascade_images, averaging_merger
     import toasty.par_util
     toasty.par_util.SHOW_INFORMATIONAL_MESSAGES = False
+    if via_cli:
+        # the same process has loaded an image with `--black-to-transparent` before (an earlier `tile-study` run in a script or a
+        # notebook); that option belongs to that loader only
+        import argparse
+        from toasty.image import ImageLoader
+        ImageLoader.create_from_args(argparse.Namespace(black_to_transparent=True, colorspace_processing="srgb", psd_single_layer=None, crop=None))
     with warnings.catch_warnings():
         warnings.simplefilter("ignore")
         if via_cli:
